@@ -660,6 +660,22 @@ func init() {
 							nUpd++
 							what := "the common sets are seeded from the acknowledged commits' own tables"
 							viaParents := false
+							// the seeding function does not follow parent links at all (a queue or
+							// any other container would hide the flow from a key-provenance check)
+							for _, b2 := range fn.Blocks {
+								for _, i2 := range b2.Instrs {
+									switch y := i2.(type) {
+									case *ssa.FieldAddr:
+										if structField(y.X.Type(), y.Field) == parents {
+											viaParents = true
+										}
+									case *ssa.Field:
+										if structField(y.X.Type(), y.Field) == parents {
+											viaParents = true
+										}
+									}
+								}
+							}
 							for x := range backwardCalls(mu.Key) {
 								switch y := x.(type) {
 								case *ssa.FieldAddr:
